@@ -1,5 +1,7 @@
 CONSTANTS NPeriods = 4 NVars = 3 NAgents = 3
-SPECIFICATION KSpec
+SPECIFICATION KFair
+PROPERTY AllPeriodsSimulated
+PROPERTY EveryVariableDrawsInEveryPeriod
 INVARIANT NoKeyReuse
 INVARIANT DrawKeysDistinct
 INVARIANT Period0UsesNoKey
